@@ -307,6 +307,9 @@ def run(ctx):
     ctx.check(ok2 and ok3, "C17.f", "dask:h2-h3", "histogram2d stacks (data1, data2) as columns; both delegate to histogramdd with bins and kwargs",
               "the dask 2-D / 3-D facades no longer delegate to histogramdd with the columns in order", (h2d or dm).where if h2d else dm.relpath)
 
+    wiring.params_used(ctx, "C17.d", wiring.funcs_of(m, "compat.pandas", "compat.polars", "compat.dask", "compat.xarray", "compat.geant4"),
+                       "compat:options-read")
+
     # ---- C17.g names carried by the container ---------------------------------------------------------------------------
     ctx.rule("C17.g", "axis names carried by the inputs reach the histogram whenever the caller gave none", 4)
     fac = m.module("_facade")
